@@ -1,6 +1,8 @@
 package e1
 
 import (
+	"encoding/json"
+	"os"
 	"testing"
 	"time"
 
@@ -38,3 +40,37 @@ func shardedPhase(t *testing.T, property, phase, engine, testName string, child 
 }
 
 func timeUp(deadline time.Time) bool { return !deadline.IsZero() && time.Now().After(deadline) }
+
+// replayWanted returns the "replay" object of the file named by VERIF_REPLAY (nil when not replaying).
+func replayWanted() any {
+	f := os.Getenv("VERIF_REPLAY")
+	if f == "" {
+		return nil
+	}
+	b, err := os.ReadFile(f)
+	if err != nil {
+		return nil
+	}
+	var body struct {
+		Replay any `json:"replay"`
+	}
+	if json.Unmarshal(b, &body) != nil {
+		return nil
+	}
+	return body.Replay
+}
+
+// replayMatch reports whether candidate (the replay object a case would record) equals the recorded one;
+// when not replaying every case matches. Enumerations call it before executing a case, so a replay run
+// executes exactly the recorded case (several times where the caller loops) and nothing else.
+func replayMatch(wanted any, candidate any) bool {
+	if wanted == nil {
+		return true
+	}
+	a, _ := json.Marshal(wanted)
+	var norm any
+	b, _ := json.Marshal(candidate)
+	json.Unmarshal(b, &norm)
+	b, _ = json.Marshal(norm)
+	return string(a) == string(b)
+}
